@@ -273,7 +273,7 @@ def _make_platform(kind, table):
     raise ValueError(kind)
 
 
-def run_e2e(kind, table, history):
+def run_e2e(kind, table, history, net_clock=None):
     """-> dict(errs [(kind, text)], counts)"""
     from amaranth.hdl import Module, Signal, Cat, Instance, Elaboratable
     from amaranth.lib import io
@@ -315,6 +315,11 @@ def run_e2e(kind, table, history):
             box["hist"] = run_history(table, history, rm=platform, on_grant=on_grant)
             src = Signal(max(1, sum(len(o) for o in outs)))
             m.submodules.src = Instance("VF_SRC", o_q=src)
+            if net_clock is not None:       # a clock constraint on an internal net (not a resource)
+                netclk = Signal(name="vf_netclk")
+                m.submodules.osc = Instance("VF_OSC", o_clk=netclk)
+                ins.append(netclk)
+                platform.add_clock_constraint(netclk, G.period_of(net_clock))
             off = 0
             for o in outs:
                 m.d.comb += o.eq(src[off:off + len(o)])
@@ -353,7 +358,7 @@ def run_e2e(kind, table, history):
                 res["errs"].append(("duplicate-port-name", f"two granted ports are both called {iop.name}"))
             decl[iop.name] = pins[half]
         if leaf.get("clock_mhz"):
-            clocks[halves[0][1].name] = leaf["clock_mhz"] * 1e6
+            clocks[halves[0][1].name] = R.clock_hz(leaf["clock_mhz"])
     want = {}
     for name, width in top_ports:
         if name not in decl:
@@ -388,10 +393,19 @@ def run_e2e(kind, table, history):
             g = gotf.get(name, [])
             if len(g) != 1 or abs(g[0] - hz) > 1e-6 * hz:
                 res["errs"].append(("clock", f"clock port {name} declared {hz} Hz, constraint file has {g}"))
+        net_seen = 0
         for name in gotf:
-            if name not in clocks or name not in top_names:
+            if net_clock is not None and name not in top_names and name.split(".")[-1] == "vf_netclk":
+                net_seen += 1
+                hz = R.clock_hz(net_clock)
+                res["clocks"] += 1
+                if len(gotf[name]) != 1 or abs(gotf[name][0] - hz) > 1e-6 * hz:
+                    res["errs"].append(("net-clock", f"clock net {name} constrained to {hz} Hz, constraint file has {gotf[name]}"))
+            elif name not in clocks or name not in top_names:
                 res["errs"].append(("extra-clock-constraint",
                                     f"clock constraint {gotf[name]} Hz on {name}, which is not a declared clock of a granted port of the design"))
+        if net_clock is not None and net_seen != 1:
+            res["errs"].append(("net-clock", f"{net_seen} constraints for the constrained clock net vf_netclk"))
     return res
 
 
@@ -419,10 +433,11 @@ def w_e2e(task):
     cov = {"e2e_builds": 0, "e2e_port_bits_checked": 0, "e2e_clock_constraints_checked": 0, "e2e_top_ports": 0,
            "e2e_builds_with_refused_request": 0, "transitions": 0, "mismatches": 0, "traces_validated_against_impl": 0}
     out = {"cov": cov, "samples": [], "violations": [], "flags": set()}
-    for table, maxlen in tables:
+    for table, maxlen, *rest in tables:
         nv = 0
+        net_clock = rest[0] if rest else None
         for hist in e_histories(kind, table, maxlen, pin_path):
-            r = run_e2e(kind, table, hist)
+            r = run_e2e(kind, table, hist, net_clock)
             cov["e2e_builds"] += 1
             cov["e2e_port_bits_checked"] += r["bits"]
             cov["e2e_clock_constraints_checked"] += r["clocks"]
@@ -450,7 +465,7 @@ def w_e2e(task):
                     out["violations"].append({
                         "sig": _sig("E:" + kind, table, hist, k),
                         "what": f"{kind} prepare() with requests {[G.action_tag(a) for a in hist]} on table {G.table_tag(table)}: {text}",
-                        "payload": {"family": "E", "platform": kind, "table": table, "history": hist}})
+                        "payload": {"family": "E", "platform": kind, "table": table, "history": hist, "net_clock": net_clock}})
         if cov["e2e_builds"] and not out["samples"]:
             out["samples"].append({"family": "E", "platform": kind, "table": G.table_tag(table),
                                    "history": [G.action_tag(a) for a in hist], "port_bits_checked": r["bits"]})
@@ -501,7 +516,10 @@ def families(rep):
     e_structs = s1 + s2 + s3small
     e_tables = [(G.s_table(s, i + 1), 3) for i, s in enumerate(e_structs)]
     e_d1 = [(t, 2) for t in d1]
-    fam["E"] = (e_tables[::12] + e_d1[::450] if q else e_tables + e_d1[::40], None)
+    # EC (both tiers, complete): every declared clock of G.CLOCKS (fractional / sub-MHz / period-given) on a single pin,
+    # a diff pair and a subsignal, plus a clock constraint on an internal net; one request, both request paths
+    ec = [(t, 1, G.CLOCKS[(k + 7) % len(G.CLOCKS)]) for k, t in enumerate(G.ec_tables())]
+    fam["E"] = ((e_tables[::12] + e_d1[::450] if q else e_tables + e_d1[::40]) + ec, None)
     return fam
 
 
@@ -558,7 +576,8 @@ def run(rep):
                "resource + probes), D2 (all dir x xdr overrides), X (dangling connector pins) is executed on a fresh real "
                "ResourceManager in lock step with the reference allocator; states = distinct (table, granted set, pin->owner map); "
                "E: every permutation of every subset of the resources requested inside elaborate() of a design prepared for "
-               "iCE40 (.pcf), ECP5 (.lpf), Gowin (.cst), constraint files parsed and compared with the top-level ports of the RTLIL")
+               "iCE40 (.pcf), ECP5 (.lpf), Gowin (.cst), constraint files parsed and compared with the top-level ports of the RTLIL; "
+               "clock constraints (port and internal net) are parsed as numbers and compared with the declared frequency to 1e-6 relative")
     rep.setcov("bounds", {"pins": 4, "resources_per_table": 3, "history_length": {k: v[1] for k, v in fam.items() if v[1]},
                           "tables": {k: len(v[0]) for k, v in fam.items()}, "connector_chain_depth": 3})
     need = ["grant", "refuse:already", "refuse:conflict", "refuse:illegal", "refuse:missing", "refuse:dangling",
@@ -570,6 +589,9 @@ def run(rep):
     rep.require("either:granted" in allflags or "either:refused" in allflags, "xdr>2 requests never exercised")
     rep.require(rep.cov.get("e2e_port_bits_checked", 0) > 0 and rep.cov.get("e2e_clock_constraints_checked", 0) > 0,
                 "end-to-end: no constraint bits / clock constraints were compared")
+    rep.require(any(R.clock_hz(c) % 1e6 for c in G.CLOCKS) and any(R.clock_hz(c) < 1e6 for c in G.CLOCKS),
+                "declared clocks contain no fractional-MHz / sub-MHz frequency")
+    rep.setcov("declared_clocks_hz", sorted(round(R.clock_hz(c), 3) for c in G.CLOCKS))
     rep.require(rep.cov.get("e2e_builds_with_refused_request", 0) > 0, "end-to-end: no build contained a refused request")
     rep.assume("the Apicula flow renders no timing constraint file, so declared clocks are compared for iCE40 and ECP5 only; "
                "the vendor (non open) toolchain templates need Yosys to render and are not covered")
@@ -580,7 +602,7 @@ def replay(payload):
     table, hist = payload["table"], payload["history"]
     msgs = []
     if payload.get("family") == "E":
-        r = run_e2e(payload["platform"], table, hist)
+        r = run_e2e(payload["platform"], table, hist, payload.get("net_clock"))
         h = r["hist"]
         msgs += [f"{k}: {t}" for k, t in r["errs"]]
     else:
